@@ -152,6 +152,43 @@ def pad(g, pt, pb, pl, pr, bg):
     return out
 
 
+# ------------------------------------------------------------------ exhaustive enumeration helpers
+
+def shapes_upto(cells):
+    """Every (h, w) with h*w <= cells, incl. 1xN, Nx1 and 1x1."""
+    return [(h, w) for h in range(1, cells + 1) for w in range(1, cells // h + 1)]
+
+
+def enum_chunks(base, max_cells, chunk=1 << 14):
+    """[(h, w, lo, hi)]: index ranges covering every raster over a `base`-letter alphabet of every shape
+    with <= max_cells cells, smallest grids first (raster idx = digits of idx in that base, row-major)."""
+    out = []
+    for (h, w) in sorted(shapes_upto(max_cells), key=lambda s: (s[0] * s[1], s[0])):
+        total = base ** (h * w)
+        for lo in range(0, total, chunk):
+            out.append((h, w, lo, min(total, lo + chunk)))
+    return out
+
+
+def split_chunks(chunks, k):
+    """Deterministic greedy split of chunks into k bins of similar total size."""
+    bins = [[] for _ in range(k)]
+    load = [0] * k
+    for c in sorted(chunks, key=lambda c: (-(c[3] - c[2]), c[0] * c[1], c[0], c[2])):
+        i = load.index(min(load))
+        bins[i].append(c)
+        load[i] += c[3] - c[2]
+    return [sorted(b, key=lambda c: (c[0] * c[1], c[0], c[2])) for b in bins]
+
+
+def digits(idx, base, count):
+    out = []
+    for _ in range(count):
+        idx, d = divmod(idx, base)
+        out.append(d)
+    return out
+
+
 # ------------------------------------------------------------------ Hypothesis wiring
 
 def _digits(n, base, count):
